@@ -509,9 +509,42 @@ def match_known(pid, tags, known, impl=None):
     return None
 
 
+MODEL_FUNCTIONS = frozenset(["Condition", "Fn::And", "Fn::Base64", "Fn::Equals", "Fn::FindInMap", "Fn::GetAtt", "Fn::GetAZs", "Fn::If",
+                             "Fn::ImportValue", "Fn::Join", "Fn::Not", "Fn::Or", "Fn::Select", "Fn::Split", "Fn::Sub", "Ref"])
+_FOREIGN = None
+
+
+def foreign_functions():
+    """intrinsic functions the LIVE code implements and the model does not know (Resolver/GenChecks.v proves the inclusion the other
+    way round on every run).  A newly supported intrinsic is an ordinary upstream change; an input that mentions one is outside the
+    model's domain: it is not compared, it is counted, and the evidence says so."""
+    global _FOREIGN
+    if _FOREIGN is None:
+        try:
+            from pycfmodel.constants import IMPLEMENTED_FUNCTIONS
+            _FOREIGN = frozenset(f for f in IMPLEMENTED_FUNCTIONS if isinstance(f, str)) - MODEL_FUNCTIONS
+        except Exception:   # noqa
+            _FOREIGN = frozenset()
+    return _FOREIGN
+
+
+def mentions_key(x, names, depth=0):
+    if depth > 200:
+        return False
+    if isinstance(x, dict):
+        return any((k in names) or mentions_key(v, names, depth + 1) for k, v in x.items())
+    if isinstance(x, (list, tuple)):
+        return any(mentions_key(v, names, depth + 1) for v in x)
+    return False
+
+
 def run_shard(pmod, tier, seed, shard, nshards, budget_s):
     """Differential loop for one shard.  Returns Stats."""
     st = Stats()
+    foreign = foreign_functions()
+    if foreign:
+        note(pmod.ID, "the live resolver implements intrinsic functions the model does not know: " + ", ".join(sorted(foreign)) +
+             "; cases that mention them are outside the model's domain (counted as model_undefined, distribution key foreign-function)")
     rng = random.Random(f"{seed}/{pmod.ID}/{shard}")
     rn = Runner(keep_samples=max(1, 240 // nshards), rng=random.Random(f"s{seed}/{shard}"))
     known = load_known()
@@ -523,6 +556,13 @@ def run_shard(pmod, tier, seed, shard, nshards, budget_s):
             if time.time() - t0 > budget_s:
                 st.bump("stopped_by_time_budget")
                 break
+            if foreign and mentions_key(x, foreign):
+                st.evaluations += 1
+                st.by_surface[surf.name] = st.by_surface.get(surf.name, 0) + 1
+                st.undefined += 1
+                st.bump("surface_undefined:" + surf.name)
+                st.bump("foreign-function")
+                continue
             i = surf.impl(x)
             m = surf.model(rn, x)
             st.evaluations += 1
